@@ -112,6 +112,14 @@ func main() {
 		cmdScript(os.Args[2:])
 	case "digest":
 		cmdDigest(os.Args[2:])
+	case "gen":
+		// debugging aid: run one random history by its seed and print its digests
+		var sd int64
+		fmt.Sscan(os.Args[2], &sd)
+		r := RandomHistory(NewApp(), NewMon(NewStats()), sd, 120)
+		for _, x := range r.digests {
+			fmt.Println("D", x)
+		}
 	case "racereport":
 		cmdRaceReport(os.Args[2:])
 	default:
